@@ -3,7 +3,6 @@ package query
 import (
 	"errors"
 	"fmt"
-	"regexp"
 	"strconv"
 	"strings"
 )
@@ -332,11 +331,29 @@ func parseCondition(firstSnippet *snippet, getSnippet func() (*snippet, error)) 
 	return Where(firstSnippet.text, operator, value.text), nil
 }
 
-var escapeReplacer = regexp.MustCompile(`\\([^\\])`)
-
 // prepToken removes surrounding parenthesis and escape characters.
 func prepToken(text string) string {
-	return escapeReplacer.ReplaceAllString(strings.Trim(text, "\""), "$1")
+	var b strings.Builder
+	escaped := false
+	for i := 0; i < len(text); i++ {
+		switch {
+		case escaped:
+			// escaped characters are taken literally
+			b.WriteByte(text[i])
+			escaped = false
+		case text[i] == '\\':
+			escaped = true
+		case text[i] == '"':
+			// unescaped parenthesis only surround the token
+		default:
+			b.WriteByte(text[i])
+		}
+	}
+	if escaped {
+		// trailing escape character without anything to escape
+		b.WriteByte('\\')
+	}
+	return b.String()
 }
 
 // escapeString correctly escapes a snippet for printing.
@@ -344,6 +361,7 @@ func escapeString(token string) string {
 	// check if token contains characters that need to be escaped
 	if strings.ContainsAny(token, "()\"\\\t\r\n ") {
 		// put the token in parenthesis and only escape \ and "
+		token = strings.ReplaceAll(token, "\\", "\\\\")
 		return fmt.Sprintf("\"%s\"", strings.ReplaceAll(token, "\"", "\\\""))
 	}
 	return token
